@@ -29,9 +29,17 @@ impl Number {
                 None => "-".to_owned() + x,
             }
         }
+        // an integer zero has no sign: `-0` is `0` (and `-0` is not a valid shift amount or index)
+        fn negate_integer(x: &str) -> String {
+            if x.chars().all(|c| c == '0') {
+                x.to_owned()
+            } else {
+                toggle_sign(x)
+            }
+        }
         Some(match self {
-            Integer(x) => Integer(toggle_sign(x)),
-            BigInt(x) => BigInt(toggle_sign(x)),
+            Integer(x) => Integer(negate_integer(x)),
+            BigInt(x) => BigInt(negate_integer(x)),
             Float(x) => Float(toggle_sign(x)),
             Byte(_) => return None,
         })
